@@ -32,7 +32,32 @@ Theorem C08_oldest_unsent_next :
     forall m', In m' (ds_outbox st) -> m_sent m' = 0%N -> (m_created m <= m_created m')%N.
 Proof. exact next_unsent_is_oldest. Qed.
 
+From Lospan Require Import Model.Frame Proof.LocalProof Proof.LifecycleProof.
+(* ---- whole histories ---- *)
+(* For EVERY sequence of uplinks (accepted or not, with or without the ACK flag, any counters) and submissions:
+   every message of the queue keeps its position and identity, an unconfirmed message that has been sent is
+   never un-sent again (so it is loaded for transmission at most once: loading takes the oldest UNSENT message,
+   C08_oldest_unsent_next), and an acknowledged message stays acknowledged; submissions only append. *)
+Theorem C08_history_status :
+  forall (E D : list N -> list N -> list N) apps evs, Forall positive_time evs -> forall st,
+    exists later, evolves (ds_outbox st) (firstn (length (ds_outbox st)) (ds_outbox (final E D apps st evs))) /\
+                  ds_outbox (final E D apps st evs) = firstn (length (ds_outbox st)) (ds_outbox (final E D apps st evs)) ++ later.
+Proof. exact queue_history. Qed.
+(* If, over a history, a message goes from unacknowledged to acknowledged, then the history contains an uplink
+   carrying the ACK flag before which the message had been sent, was not yet acknowledged, and was waiting for
+   exactly that uplink's counter. *)
+Theorem C08_history_acknowledged_only_by_ack :
+  forall (E D : list N -> list N -> list N) apps evs st i m m',
+    nth_error (ds_outbox st) i = Some m -> nth_error (ds_outbox (final E D apps st evs)) i = Some m' ->
+    m_acktime m = 0%N -> (0 < m_acktime m')%N ->
+    exists evs1 f rx n now evs2 mi,
+      evs = evs1 ++ LUp f rx n now :: evs2 /\ ack (fc f) = true /\
+      nth_error (ds_outbox (final E D apps st evs1)) i = Some mi /\ (0 < m_sent mi)%N /\ m_acktime mi = 0%N /\ m_fcntup mi = fcnt f.
+Proof. exact acknowledged_only_by_ack_uplink. Qed.
+
 Print Assumptions C08_ack_only_after_transmission.
 Print Assumptions C08_reset_only_confirmed.
 Print Assumptions C08_retransmit_requeued.
 Print Assumptions C08_oldest_unsent_next.
+Print Assumptions C08_history_status.
+Print Assumptions C08_history_acknowledged_only_by_ack.
